@@ -41,10 +41,10 @@ SIG = "s1"
 
 # ----------------------------------------------------------------------------- updates while paused (implementation only)
 # The shared harness delivers monitor updates at arrivals of _run only; _run never "arrives" while paused.  To
-# exercise "updates during a pause are not reported" on the real engine, scenario["paused_updates"][k] (a value or
-# None) is delivered to the signal at the moment the state becomes 'paused' for the k-th time (inside the state hook:
-# after suspend_monitors, before RE.__call__ returns).  The model needs no counterpart: no event may result
-# (Lean: C41_paused_no_subscription + update_emits_one_event_per_subscription).
+# exercise "updates during a pause are not reported" on the real engine, scenario["paused_updates"][k]
+# ({"sig": name, "v": value} or None) is delivered to that signal at the moment the state becomes 'paused' for the
+# k-th time (inside the state hook: after suspend_monitors, before RE.__call__ returns).  The model needs no
+# counterpart: no event may result (Lean: C41_paused_no_subscription + update_without_subscription_emits_nothing).
 _orig_state_hook = EI.Harness.state_hook
 
 
@@ -54,9 +54,9 @@ def _state_hook(self, new, old):
     if ups and str(new) == "paused":
         k = getattr(self, "_n_paused", 0)
         self._n_paused = k + 1
-        if k < len(ups) and ups[k] is not None and SIG in self.devs:
-            dev = self.devs[SIG]
-            dev.value = ups[k]
+        if k < len(ups) and ups[k] is not None and ups[k]["sig"] in self.devs:
+            dev = self.devs[ups[k]["sig"]]
+            dev.value = ups[k]["v"]
             for cb in list(dev.subs):
                 cb()
 
@@ -73,8 +73,12 @@ def _is_mon_stream(name):
     return isinstance(name, str) and name.endswith("_monitor")
 
 
-def analyse(sc, o):
-    """the facts the oracle needs, from the logs of the implementation"""
+def signals(sc):
+    return sorted(n for n, d in sc.get("devices", {}).items() if d.get("kind") == "sig")
+
+
+def analyse(sc, o, sig=SIG):
+    """when was `sig` monitored by which run, and when was the engine inside a suspension -- from the logs"""
     T = o["ticks"]
     docs, dt = o["docs"], T["docs"]
     msgs, mt = o["msgs"], T["msgs"]
@@ -94,7 +98,7 @@ def analyse(sc, o):
         return [(d, td) for d, td in zip(docs, dt) if t0 < td < t1]
 
     stop_t = {d["run"]: td for d, td in zip(docs, dt) if d["k"] == "stop"}
-    key_run = {}  # run key -> (run, since)
+    key_run = {}  # run key -> run
     intervals = {}  # run -> list of [start, end]
     active = {}  # run -> start tick of the running interval
     events = sorted(
@@ -115,18 +119,17 @@ def analyse(sc, o):
             st = [d for d, td in docs_in(t, end) if d["k"] == "start"]
             if st:
                 key_run[key] = st[0]["run"]
-        elif cmd == "monitor" and obj == SIG:
-            ds = [(d, td) for d, td in docs_in(t, end) if d["k"] == "descriptor" and _is_mon_stream(d["stream"])]
+        elif cmd == "monitor" and obj == sig:
+            ds = [(d, td) for d, td in docs_in(t, end) if d["k"] == "descriptor" and _is_mon_stream(d["stream"]) and d["keys"] == [sig]]
             if ds:
                 active[ds[0][0]["run"]] = ds[0][1]
-        elif cmd == "unmonitor" and obj == SIG:
+        elif cmd == "unmonitor" and obj == sig:
             r = key_run.get(key)
-            cleared = any(e[0] == SIG and e[1] == "clear_sub" and t < tl < wend_msg(t) for e, tl in zip(led, lt))
+            cleared = any(e[0] == sig and e[1] == "clear_sub" and t < tl < wend_msg(t) for e, tl in zip(led, lt))
             if r in active and cleared:
                 intervals.setdefault(r, []).append([active.pop(r), t])
     for r, t0 in active.items():
         intervals.setdefault(r, []).append([t0, stop_t.get(r, float("inf"))])
-    # suspension depth over time
     susp = []  # (tick, depth after)
     depth = 0
     for m, t in zip(msgs, mt):
@@ -148,21 +151,21 @@ def analyse(sc, o):
 
 
 def updates(sc, o):
-    """[(tick, value, context)] of the signal updates that were delivered"""
+    """[(tick, signal, value, context)] of the signal updates that were delivered"""
     T = o["ticks"]
     out = []
     for k, acts in sc.get("script", {}).items():
         k = int(k)
         if k < len(T["arrivals"]) and k < sc.get("max_arrivals", 400):
             for a in acts:
-                if a["a"] == "monitor" and a["sig"] == SIG:
-                    out.append((T["arrivals"][k], a["v"], "arrival"))
+                if a["a"] == "monitor":
+                    out.append((T["arrivals"][k], a["sig"], a["v"], "arrival"))
     ups = sc.get("paused_updates") or []
     n = 0
     for (a, b), t in zip(o["trans"], T["trans"]):
         if b == "paused":
             if n < len(ups) and ups[n] is not None:
-                out.append((t, ups[n], "paused"))
+                out.append((t, ups[n]["sig"], ups[n]["v"], "paused"))
             n += 1
     out.sort()
     return out
@@ -170,88 +173,94 @@ def updates(sc, o):
 
 def oracle(sc, o):
     bad = []
-    if any(r[1] == "hang" for r in o["returns"]) or SIG not in sc.get("devices", {}):
+    if any(r[1] == "hang" for r in o["returns"]):
         return bad
-    intervals, suspended_at, wend, docs_in = analyse(sc, o)
     T = o["ticks"]
     ups = updates(sc, o)
-    vals = [v for _, v, _ in ups]
+    vals = [v for _, _, v, _ in ups]
     unique = len(set(vals)) == len(vals)
-    mon_events = [(d, td) for d, td in zip(o["docs"], T["docs"]) if d["k"] == "event" and _is_mon_stream(d["stream"])]
     had_pause = [t for (a, b), t in zip(o["trans"], T["trans"]) if b == "paused"]
     had_susp_end = [t for m, t in zip(o["msgs"], T["msgs"]) if m[0] == "_resume_from_suspender"]
+    all_mon = [(d, td) for d, td in zip(o["docs"], T["docs"]) if d["k"] == "event" and _is_mon_stream(d["stream"])]
     claimed = 0
-    for t, v, ctx in ups:
-        end = wend(t)
-        if unique:
-            evs = [(d, td) for d, td in mon_events if d["data"].get(SIG) == v]
-            for d, td in evs:
-                if not (t < td < end):
-                    bad.append(("monitor-event-late", f"update {v} at tick {t}: event at tick {td} is outside the update's window"))
-        else:
-            evs = [(d, td) for d, td in mon_events if t < td < end]
-        claimed += len(evs)
-        per_run = {}
-        for d, _ in evs:
-            per_run[d["run"]] = per_run.get(d["run"], 0) + 1
-        paused = ctx == "paused"
-        susp = suspended_at(t)
-        monitoring = sorted(r for r, ivs in intervals.items() if any(a < t < b for a, b in ivs))
-        for r in monitoring:
-            n = per_run.pop(r, 0)
-            if paused:
-                if n:
-                    bad.append(("monitor-event-while-paused", f"update {v} delivered when the state became 'paused': run {r} got {n} event(s)"))
-            elif susp:
-                if n:
-                    bad.append(("monitor-event-during-suspension", f"update {v} at tick {t} inside a suspension (after _start_suspender, before _resume_from_suspender): run {r} got {n} event(s)"))
-            elif n == 0:
-                where = "after-resume" if any(tp < t for tp in had_pause) else ("after-suspension" if any(ts < t for ts in had_susp_end) else "plain")
-                bad.append((f"monitor-event-missing:{where}", f"update {v} at tick {t}: run {r} monitors {SIG}, is open, engine neither paused nor suspended, but no event"))
-            elif n > 1:
-                where = "after-suspension" if any(ts < t for ts in had_susp_end) else "other"
-                bad.append((f"monitor-event-duplicated-{where}", f"update {v} at tick {t}: run {r} got {n} events for one update"))
-        for r, n in per_run.items():
-            bad.append(("monitor-event-for-unmonitored-or-closed-run", f"update {v} at tick {t}: run {r} got {n} event(s) but does not monitor {SIG} at that moment"))
-    if unique and claimed != len(mon_events):
-        bad.append(("monitor-event-without-update", f"{len(mon_events) - claimed} event(s) in a monitor stream carry no delivered update value"))
+    for sig in signals(sc):
+        intervals, suspended_at, wend, docs_in = analyse(sc, o, sig)
+        mon_events = [(d, td) for d, td in all_mon if sig in d["data"]]
+        for t, usig, v, ctx in ups:
+            if usig != sig:
+                continue
+            end = wend(t)
+            if unique:
+                evs = [(d, td) for d, td in mon_events if d["data"].get(sig) == v]
+                for d, td in evs:
+                    if not (t < td < end):
+                        bad.append(("monitor-event-late", f"update {sig}={v} at tick {t}: event at tick {td} is outside the update's window"))
+            else:
+                evs = [(d, td) for d, td in mon_events if t < td < end]
+            claimed += len(evs)
+            per_run = {}
+            for d, _ in evs:
+                per_run[d["run"]] = per_run.get(d["run"], 0) + 1
+            paused = ctx == "paused"
+            susp = suspended_at(t)
+            monitoring = sorted(r for r, ivs in intervals.items() if any(a < t < b for a, b in ivs))
+            for r in monitoring:
+                n = per_run.pop(r, 0)
+                if paused:
+                    if n:
+                        bad.append(("monitor-event-while-paused", f"update {sig}={v} delivered when the state became 'paused': run {r} got {n} event(s)"))
+                elif susp:
+                    if n:
+                        bad.append(("monitor-event-during-suspension", f"update {sig}={v} at tick {t} inside a suspension (after _start_suspender, before _resume_from_suspender): run {r} got {n} event(s)"))
+                elif n == 0:
+                    where = "after-resume" if any(tp < t for tp in had_pause) else ("after-suspension" if any(ts < t for ts in had_susp_end) else "plain")
+                    bad.append((f"monitor-event-missing:{where}", f"update {sig}={v} at tick {t}: run {r} monitors {sig}, is open, engine neither paused nor suspended, but no event"))
+                elif n > 1:
+                    where = "after-suspension" if any(ts < t for ts in had_susp_end) else "other"
+                    bad.append((f"monitor-event-duplicated-{where}", f"update {sig}={v} at tick {t}: run {r} got {n} events for one update"))
+            for r, n in per_run.items():
+                bad.append(("monitor-event-for-unmonitored-or-closed-run", f"update {sig}={v} at tick {t}: run {r} got {n} event(s) but does not monitor {sig} at that moment"))
+        # ledger: with one monitoring run at a time a subscribe must never meet a live subscription
+        keys = {m[2] for m in o["msgs"] if m[0] == "monitor" and m[1] == sig}
+        if len(keys) <= 1:
+            live = 0
+            for e in o["ledger"]:
+                if e[0] != sig:
+                    continue
+                if e[1] == "subscribe":
+                    if live:
+                        bad.append(("monitor-subscribed-twice-without-clear_sub", f"{sig}.subscribe called while the engine's callback is already registered (ledger of {sig}: {[x[1] for x in o['ledger'] if x[0] == sig]})"))
+                        break
+                    live += 1
+                elif e[1] == "clear_sub":
+                    live = 0
+    if unique and claimed != len(all_mon):
+        bad.append(("monitor-event-without-update", f"{len(all_mon) - claimed} event(s) in a monitor stream carry no delivered update value"))
     # numbering of each monitor stream: 1..N (the stream is never re-taken)
-    for r in {d["run"] for d, _ in mon_events}:
-        seqs = [d["seq"] for d, _ in mon_events if d["run"] == r]
+    for r, st in sorted({(d["run"], d["stream"]) for d, _ in all_mon}):
+        seqs = [d["seq"] for d, _ in all_mon if d["run"] == r and d["stream"] == st]
         if seqs != list(range(1, len(seqs) + 1)):
-            bad.append(("monitor-seq-nums-not-1..N", f"run {r}: seq_nums of the monitor stream are {seqs}"))
+            bad.append(("monitor-seq-nums-not-1..N", f"run {r}: seq_nums of stream {st} are {seqs}"))
     # nothing left on the device
     for name, n in o.get("subs_left", {}).items():
         if n != 0:
             bad.append(("subscription-left-on-device", f"{name} still has {n} engine subscription(s) after the engine went idle"))
-    # ledger: with one monitoring run at a time a subscribe must never meet a live subscription
-    keys = {m[2] for m in o["msgs"] if m[0] == "monitor" and m[1] == SIG}
-    if len(keys) <= 1:
-        live = 0
-        for e in o["ledger"]:
-            if e[0] != SIG:
-                continue
-            if e[1] == "subscribe":
-                if live:
-                    bad.append(("monitor-subscribed-twice-without-clear_sub", f"{SIG}.subscribe called while the engine's callback is already registered (ledger of {SIG}: {[x[1] for x in o['ledger'] if x[0] == SIG]})"))
-                    break
-                live += 1
-            elif e[1] == "clear_sub":
-                live = 0
     return bad
 
 
 def stats(sc, o):
     f = set()
-    intervals, suspended_at, wend, _ = analyse(sc, o)
-    for t, v, ctx in updates(sc, o):
-        mon = any(a < t < b for ivs in intervals.values() for a, b in ivs)
-        f.add(f"upd:{ctx}:{'mon' if mon else 'nomon'}:{'susp' if suspended_at(t) else 'run'}")
+    for sig in signals(sc):
+        intervals, suspended_at, wend, _ = analyse(sc, o, sig)
+        for t, usig, v, ctx in updates(sc, o):
+            if usig == sig:
+                mon = any(a < t < b for ivs in intervals.values() for a, b in ivs)
+                f.add(f"upd:{ctx}:{'mon' if mon else 'nomon'}:{'susp' if suspended_at(t) else 'run'}")
     return f
 
 
 # ----------------------------------------------------------------------------- targeted generator
-def gen_plan(rng):
+def gen_plan(rng, sigs=(SIG,)):
     two = rng.random() < 0.15
     keys = ["a", "b"] if two else [None]
     body = []
@@ -276,14 +285,15 @@ def gen_plan(rng):
     for k in keys:
         if two and rng.random() < 0.3:
             continue
-        i = rng.randrange(0, len(pts))
-        pts[i].insert(rng.randrange(0, 2), M("monitor", SIG, run=k, name=f"{SIG}_monitor"))
-        r = rng.random()
-        if r < 0.5:
-            j = rng.randrange(i, len(pts))
-            pts[j].append(M("unmonitor", SIG, run=k))
-        elif r < 0.6:
-            pts[rng.randrange(0, len(pts))].insert(0, M("unmonitor", SIG, run=k))  # possibly before the monitor: refused
+        for sg in sigs:
+            i = rng.randrange(0, len(pts))
+            pts[i].insert(rng.randrange(0, 2), M("monitor", sg, run=k, name=f"{sg}_monitor"))
+            r = rng.random()
+            if r < 0.5:
+                j = rng.randrange(i, len(pts))
+                pts[j].append(M("unmonitor", sg, run=k))
+            elif r < 0.6:
+                pts[rng.randrange(0, len(pts))].insert(0, M("unmonitor", sg, run=k))  # possibly before the monitor: refused
     for p in pts:
         body += p
     if rng.random() < 0.1:
@@ -301,13 +311,13 @@ def gen_plan(rng):
     return seq(*body)
 
 
-def gen_script(rng, n_arr, susp):
+def gen_script(rng, n_arr, susp, sigs=(SIG,)):
     script = {}
     val = [100]
 
     def upd():
         val[0] += 1
-        return {"a": "monitor", "sig": SIG, "v": val[0]}
+        return {"a": "monitor", "sig": rng.choice(sigs), "v": val[0]}
 
     dens = rng.choice([0.3, 0.6, 1.0])
     for k in range(n_arr + 6):
@@ -352,18 +362,22 @@ def gen(rng):
         "d2": {"kind": "det", "modes": {}, "offset": 2},
         SIG: {"kind": "sig"},
     }
+    sigs = (SIG,)
+    if rng.random() < 0.35:
+        devs["s2"] = {"kind": "sig"}
+        sigs = (SIG, "s2")
     sc = {
         "record_interruptions": rng.random() < 0.3,
         "devices": devs,
-        "plan": gen_plan(rng),
+        "plan": gen_plan(rng, sigs),
         "script": {},
         "decisions": [rng.choice(["resume"] * 6 + ["abort", "stop", "halt"]) for _ in range(8)],
         "max_arrivals": 300,
     }
     base = E.run_scenario(E.number(copy.deepcopy(sc)))
-    script, last = gen_script(rng, len(base["arrivals"]), susp)
+    script, last = gen_script(rng, len(base["arrivals"]), susp, sigs)
     sc["script"] = normalise_script(script)
-    sc["paused_updates"] = [(1000 + i if rng.random() < 0.7 else None) for i in range(8)]
+    sc["paused_updates"] = [({"sig": rng.choice(sigs), "v": 1000 + i} if rng.random() < 0.7 else None) for i in range(8)]
     return E.number(sc)
 
 
